@@ -6,6 +6,7 @@ package main
 // about slices quantifier-free and independent of trigger heuristics.
 
 import (
+	"go/types"
 	"fmt"
 	"os"
 	"strconv"
@@ -346,6 +347,21 @@ func (x *Exec) typeReadsIn(st *State, t *Term) {
 		typ, ok := heapValType[info.name]
 		if !ok {
 			return
+		}
+		if strings.HasPrefix(info.name, "arr:") {
+			// element heaps are shared by all slices whose elements have the same sort ([]klog.Record and
+			// []txt.Error both live in arr:Iface; []int and []*T in arr:Int): only facts that hold for every
+			// Go type of that sort may be stated
+			switch typ.Underlying().(type) {
+			case *types.Interface:
+				typ = types.NewInterfaceType(nil, nil)
+			case *types.Struct, *types.Slice:
+				// the sort names the struct type; slice facts are the same for all element types
+			default:
+				if b, isB := typ.Underlying().(*types.Basic); !isB || b.Info()&types.IsString == 0 {
+					return
+				}
+			}
 		}
 		at := info.at
 		if at == nil {
